@@ -1672,4 +1672,114 @@ theorem nameToRowOfTree_spec (l2c : List (Nat × List Nat)) :
     (fun q hq => by rw [mem_uniqueSorted]; exact List.mem_map_of_mem hq) (by simp)
   exact ⟨tbl, h1, h2, fun k hk => by rw [h3 k hk]; rfl, h4⟩
 
+
+/-! ### `read_raw_precomputed_stats` / `aggregate_stats` -/
+
+/-- the rows `cluster_to_row` addresses for a list of leaves -/
+def addressedRows (data : Buffer) (c2r : List (Nat × Nat)) (leaves : List Nat) : List Row :=
+  leaves.filterMap (fun l => (c2r.lookup l).bind (fun i => data[i]?))
+
+theorem mapMExcept_readRow (data : Buffer) (c2r : List (Nat × Nat)) :
+    ∀ (leaves : List Nat), (∀ l ∈ leaves, ∃ i, c2r.lookup l = some i ∧ i < data.length) →
+      mapMExcept (readRow data c2r) leaves = .ok (addressedRows data c2r leaves) ∧
+      (addressedRows data c2r leaves).length = leaves.length := by
+  intro leaves
+  induction leaves with
+  | nil => intro _; exact ⟨rfl, rfl⟩
+  | cons l leaves ih =>
+    intro h
+    obtain ⟨i, h1, h2⟩ := h l (by simp)
+    obtain ⟨e1, e2⟩ := ih (fun l' hl' => h l' (by simp [hl']))
+    have hd : data[i]? = some data[i] := by simp [h2]
+    have hr : readRow data c2r l = .ok data[i] := by simp [readRow, h1, hd]
+    have ha : addressedRows data c2r (l :: leaves) = data[i] :: addressedRows data c2r leaves := by
+      simp [addressedRows, h1, hd]
+    rw [ha]
+    exact ⟨by simp only [mapMExcept, hr, e1], by simp [e2]⟩
+
+theorem foldl_Row_add (rows : List Row) : ∀ (a : Row), rows.foldl Row.add a = a.add (rowSum rows) := by
+  induction rows with
+  | nil => intro a; simp
+  | cons r rows ih => intro a; simp [ih, Row.add_assoc]
+
+theorem rowSum_n (rows : List Row) : (rowSum rows).n = (rows.map (·.n)).sum := by
+  induction rows with
+  | nil => rfl
+  | cons r rows ih => simp [Row.add, ih]
+
+/-- the gene-`j` accumulator of a list of rows -/
+def colOf (rows : List Row) (j : Nat) : GStat :=
+  (rows.map (fun r => r.genes.getD j GStat.zero)).foldr GStat.add GStat.zero
+
+theorem rowSum_genes (g : Nat) (rows : List Row) (hlen : ∀ r ∈ rows, r.genes.length = g)
+    (j : Nat) (hj : j < g) :
+    (rowSum rows).genes[j]? = if rows = [] then none else some (colOf rows j) := by
+  induction rows with
+  | nil => simp [Row.empty]
+  | cons r rows ih =>
+    have hr : r.genes.length = g := hlen r (by simp)
+    have ih' := ih (fun r hr => hlen r (by simp [hr]))
+    have hj' : j < r.genes.length := by omega
+    have e1 : r.genes[j]? = some (r.genes.getD j GStat.zero) := by
+      simp [List.getD_eq_getElem?_getD, List.getElem?_eq_getElem hj']
+    simp only [rowSum_cons, Row.add, vadd_getElem?, ih', e1]
+    by_cases h : rows = []
+    · subst h; simp [colOf, GStat.add_zero]
+    · simp [h, colOf]
+
+theorem zero_add_rowSum_genes (g : Nat) (rows : List Row)
+    (hlen : ∀ r ∈ rows, r.genes.length = g) (j : Nat) (hj : j < g) :
+    ((Row.zero g).add (rowSum rows)).genes[j]? = some (colOf rows j) := by
+  simp only [Row.add, vadd_getElem?, rowSum_genes g rows hlen j hj, Row.zero]
+  have : (List.replicate g GStat.zero)[j]? = some GStat.zero := by simp [hj]
+  rw [this]
+  by_cases h : rows = []
+  · subst h; simp [colOf]
+  · simp [h, GStat.zero_add]
+
+theorem colOf_fields (rows : List Row) (j : Nat) :
+    (colOf rows j).sum = (rows.map (fun r => (r.genes.getD j GStat.zero).sum)).sum ∧
+    (colOf rows j).sumsq = (rows.map (fun r => (r.genes.getD j GStat.zero).sumsq)).sum ∧
+    (colOf rows j).gt0 = (rows.map (fun r => (r.genes.getD j GStat.zero).gt0)).sum ∧
+    (colOf rows j).gt1 = (rows.map (fun r => (r.genes.getD j GStat.zero).gt1)).sum ∧
+    (colOf rows j).ge1 = (rows.map (fun r => (r.genes.getD j GStat.zero).ge1)).sum := by
+  have := foldr_add_fields (rows.map (fun r => r.genes.getD j GStat.zero))
+  simpa [colOf, List.map_map, Function.comp_def] using this
+
+theorem aggregateStats_spec (g : Nat) (data : Buffer) (c2r : List (Nat × Nat)) (leaves : List Nat)
+    (hlook : ∀ l ∈ leaves, ∃ i, c2r.lookup l = some i ∧ i < data.length) :
+    ∃ a, aggregateStats g data c2r leaves = .ok a ∧
+      (addressedRows data c2r leaves).length = leaves.length ∧
+      a.n = ((addressedRows data c2r leaves).map (·.n)).sum ∧
+      ((∀ r ∈ addressedRows data c2r leaves, r.genes.length = g) → ∀ j : Nat, j < g →
+        a.mean[j]? = some (meanOf a.n
+          ((addressedRows data c2r leaves).map (fun r => (r.genes.getD j GStat.zero).sum)).sum) ∧
+        a.var[j]? = some (varOf a.n
+          ((addressedRows data c2r leaves).map (fun r => (r.genes.getD j GStat.zero).sum)).sum
+          ((addressedRows data c2r leaves).map (fun r => (r.genes.getD j GStat.zero).sumsq)).sum) ∧
+        a.gt0[j]? = some
+          ((addressedRows data c2r leaves).map (fun r => (r.genes.getD j GStat.zero).gt0)).sum ∧
+        a.gt1[j]? = some
+          ((addressedRows data c2r leaves).map (fun r => (r.genes.getD j GStat.zero).gt1)).sum ∧
+        a.ge1[j]? = some
+          ((addressedRows data c2r leaves).map (fun r => (r.genes.getD j GStat.zero).ge1)).sum) := by
+  obtain ⟨e1, e2⟩ := mapMExcept_readRow data c2r leaves hlook
+  generalize addressedRows data c2r leaves = rows at *
+  have hn : ((Row.zero g).add (rowSum rows)).n = (rows.map (·.n)).sum := by
+    simp [Row.add, Row.zero, rowSum_n]
+  have hagg : aggregateStats g data c2r leaves = .ok
+      { n := ((Row.zero g).add (rowSum rows)).n
+        mean := ((Row.zero g).add (rowSum rows)).genes.map
+          (fun s => meanOf ((Row.zero g).add (rowSum rows)).n s.sum)
+        var := ((Row.zero g).add (rowSum rows)).genes.map
+          (fun s => varOf ((Row.zero g).add (rowSum rows)).n s.sum s.sumsq)
+        gt0 := ((Row.zero g).add (rowSum rows)).genes.map (·.gt0)
+        gt1 := ((Row.zero g).add (rowSum rows)).genes.map (·.gt1)
+        ge1 := ((Row.zero g).add (rowSum rows)).genes.map (·.ge1) } := by
+    simp only [aggregateStats, e1, foldl_Row_add]
+  refine ⟨_, hagg, e2, hn, fun hlen j hj => ?_⟩
+  have hg := zero_add_rowSum_genes g rows hlen j hj
+  obtain ⟨f1, f2, f3, f4, f5⟩ := colOf_fields rows j
+  simp only [List.getElem?_map, hg, Option.map_some, f1, f2, f3, f4, f5, and_self]
+
 end CTM.Stats
